@@ -83,14 +83,30 @@ MOS += [
 
 SL = "persistence::Snapshot::load"
 SNAP_OK = stmt(r"^_0 = Result::<Snapshot, anyhow::Error>::Ok\(", name="return Ok(snapshot)")
+def loader_decisions(F):
+    """Snapshot::load / WalReader::open: Ok only for the right magic, an equal checksum and the right version — the whole
+    accept decision, for all values of the stored and computed words (DECIDES)."""
+    from vlib import mirdec as MD
+    T = "\u27e8[^\u27e9]*"
+    atoms = [("magic", r"^call core::num::<impl u32>::from_le_bytes$", T + "magic"), ("stored_crc", r"^call core::num::<impl u32>::from_le_bytes$", T + "(check|crc)"),
+             ("computed_crc", r"^call crc32fast::hash$"), ("MAGIC", r"^const (persistence::)?SNAPSHOT_MAGIC$"), ("version", r" as Continue\)\.0: u32\)$"), ("VERSION", r"^const (persistence::)?SNAPSHOT_VERSION$")]
+    out = MD.decides(F, SL, "entry", {"ok": SNAP_OK}, atoms, {"ok": ("=>", "(and (= magic MAGIC) (= stored_crc computed_crc) (= version VERSION))")},
+                     what="Snapshot::load returns Ok only for the snapshot magic, a stored checksum equal to the computed one and the supported version")
+    DES = call(r"= bincode::deserialize", name="bincode::deserialize*")
+    out += MD.decides(F, SL, "entry", {"deserialize": DES}, atoms, {"deserialize": ("=>", "(and (= magic MAGIC) (= stored_crc computed_crc))")},
+                      what="Snapshot::load deserialises payload bytes only after the magic and the checksum matched")
+    atoms = [("magic", r"^call core::num::<impl u32>::from_le_bytes$"), ("MAGIC", r"^const (persistence::)?WAL_MAGIC$")]
+    out += MD.decides(F, "persistence::WalReader::open", "entry", {"ok": stmt(r"^_0 = Result::<WalReader, anyhow::Error>::Ok\(", name="return Ok(reader)")}, atoms, {"ok": ("=>", "(= magic MAGIC)")},
+                      what="WalReader::open returns a reader only for a file that starts with the WAL magic")
+    return out
+
+
 MOS += [
-    MO("O13.4/snapshot_load", "Snapshot::load: Ok only when the magic matches, the stored checksum equals crc32(payload), the version matches and the payload deserialises and validates; "
-       "the checksum is compared before any byte of the payload is deserialised",
-       allof(only_via(SL, SNAP_OK, Arm(r"^Ne\(call core::num::<impl u32>::from_le_bytes, const persistence::SNAPSHOT_MAGIC\)$", {"0"}, name="magic matches")),
-             only_via(SL, SNAP_OK, Arm(r"^Ne\(call core::num::<impl u32>::from_le_bytes, call crc32fast::hash\)$", {"0"}, name="checksum equal")),
-             only_via(SL, SNAP_OK, Arm(r"^Ne\(.* as Continue\)\.0: u32\), const persistence::SNAPSHOT_VERSION\)$", {"0"}, name="version matches")),
+    MO("O13.4/loader_decisions", "Snapshot::load: Ok => magic == SNAPSHOT_MAGIC and stored crc == crc32(payload) and version == SNAPSHOT_VERSION; payload deserialised only after magic and crc matched; "
+       "WalReader::open: Ok => magic == WAL_MAGIC — for all values (DECIDES)", lambda F: loader_decisions(F), functions=[("persistence.rs", "load"), ("persistence.rs", "open")]),
+    MO("O13.4/snapshot_load", "Snapshot::load: Ok only when the payload validates (validate_and_normalize succeeded); the checksum is computed before any byte of the payload is deserialised",
+       allof(  # (magic / checksum / version comparisons are decided value-level by O13.4/loader_decisions)
              only_via(SL, SNAP_OK, Arm(r"^discr\(try\(call Snapshot::validate_and_normalize\)\)$", {"0"}, name="validate_and_normalize()? -> Ok")),
-             only_via(SL, call(r"= bincode::deserialize", name="bincode::deserialize*"), Arm(r"^Ne\(call core::num::<impl u32>::from_le_bytes, call crc32fast::hash\)$", {"0"}, name="checksum equal")),
              precedes(SL, call(r"= crc32fast::hash\(", name="crc32fast::hash(payload)"), call(r"= bincode::deserialize", name="bincode::deserialize*"))),
        functions=[("persistence.rs", "load")]),
     MO("O13.4/load_with_validation", "Snapshot::load_with_validation: every Ok comes from a successful Snapshot::load (primary or a fallback file); the fallback flag is true exactly on the fallback arm",
